@@ -90,6 +90,11 @@ Write(s, t) ==
 ApiCreate(n, sh) == ~Exists(objs[n]) /\ Write(Step("create", n, sh), "ADDED")
 ApiModify(n, sh) == Exists(objs[n]) /\ sh # objs[n] /\ Write(Step("modify", n, sh), "MODIFIED")
 ApiDelete(n)     == Exists(objs[n]) /\ Write(Step("delete", n, None), "DELETED")   \* the DELETED event carries the last description
+\* a burst of updates of an OFFERED server that only touch its metadata (player counters change many times a second): the server stays
+\* offerable throughout, so it has to stay offered throughout -- also to readers that look while the updates are being applied
+ApiChurn(n, sh)  == /\ Offerable(objs[n]) /\ Offerable(sh) /\ sh # objs[n]
+                    /\ sh.state = objs[n].state /\ sh.addr = objs[n].addr /\ sh.ports = objs[n].ports
+                    /\ Write(Step("churn", n, sh), "MODIFIED")
 
 ---------------------------------------------------------------------------
 \* watch protocol and kube::runtime::watcher
@@ -213,7 +218,7 @@ HDelete ==
 
 ---------------------------------------------------------------------------
 Next ==
-  \/ \E n \in Names, sh \in Shapes : ApiCreate(n, sh) \/ ApiModify(n, sh)
+  \/ \E n \in Names, sh \in Shapes : ApiCreate(n, sh) \/ ApiModify(n, sh) \/ ApiChurn(n, sh)
   \/ \E n \in Names : ApiDelete(n)
   \/ WInit \/ WList \/ WListFail \/ WSend \/ WRecv \/ Bookmark \/ WExpire
   \/ \E how \in {"reset", "eof"} : WDrop(how)
